@@ -86,11 +86,12 @@ structure ParserInst where
 /-- `NodeParser.parse(source, clazz, ns_map)` seen from the recorder's side.
 `decls` are the document's namespace declarations in document order, `bind`
 is the (recorder-independent) binding of the document; the caller may pass
-its own map `arg`.  Returns (instance, result, the caller's map afterwards). -/
+its own map `arg`; otherwise the instance records the prefixes of *this* document
+only (`ns_map = self.ns_map = {}`, repair of C14-F4).  Returns (instance, result, the caller's map afterwards). -/
 def parseCall {Doc R} (decls : Doc → NsMap) (bind : Doc → R) (p : ParserInst) (doc : Doc)
     (arg : Option NsMap) : ParserInst × R × Option NsMap :=
   match arg with
-  | none => (⟨registerAll p.nsMap (decls doc)⟩, bind doc, none)
+  | none => (⟨registerAll [] (decls doc)⟩, bind doc, none)
   | some m => (p, bind doc, some (registerAll m (decls doc)))
 
 end Xs.Ctx
